@@ -872,6 +872,13 @@ pub fn replay(case: &Value) -> bool {
     for (i, col) in c.cols.iter().enumerate() {
         println!("  expectation (model): column {i} reads back as {:?}", col);
     }
+    if let Some(n) = std::env::var("VK_REPEAT").ok().and_then(|s| s.parse::<u32>().ok()) {
+        let t = std::time::Instant::now();
+        for _ in 0..n {
+            let _ = run_case(&c);
+        }
+        println!("bench: {n} executions in {:?}", t.elapsed());
+    }
     match run_case(&c) {
         Ok(o) => {
             println!("replay outcome: round trip equal (row groups {:?}, {} batches, encodings {})", o.row_groups, o.batches, o.encodings);
@@ -905,6 +912,7 @@ pub fn run(ctx: &Ctx) -> ! {
     c01.extend(c1.clone());
     let c01 = Arc::new(c01);
     let c2 = Arc::new(c2);
+    let bloom_default = Arc::new(vec![Cfg(vec![(D_BLOOM, 3)])]);
     let c3 = Arc::new(c3);
     st.extra.insert("configs".into(), json!({"deviation0": 1, "deviation1": c1.len(), "deviation2": c2.len(), "deviation3_thorough_only": c3.len(),
         "dimensions": DIMS.iter().map(|d| json!({"name": d.name, "choices": d.choices})).collect::<Vec<_>>() }));
@@ -941,6 +949,8 @@ pub fn run(ctx: &Ctx) -> ! {
             let n3 = if cap3 > 0 { best_n(ra, nmax, cap3).max(1) } else { 0 };
             type_report.push(json!({"type": t.name, "alphabet": a, "N_at_<=1_deviation": n01, "reduced_alphabet": ra, "N_at_2_deviations": n2, "N_at_3_deviations": n3}));
             blocks.push(Block { ty: i, ncols: col_count(a, n01), alpha: alpha.clone(), nmax: n01, cfgs: c01.clone(), skip: None, sub: "values" });
+            // default-sized bloom filter (1 MiB per chunk): columns of length <= 1 only
+            blocks.push(Block { ty: i, ncols: col_count(a, 1), alpha: alpha.clone(), nmax: 1, cfgs: bloom_default.clone(), skip: None, sub: "values" });
             blocks.push(Block { ty: i, ncols: col_count(ra, n2), alpha: red.clone(), nmax: n2, cfgs: c2.clone(), skip: None, sub: "values" });
             if n3 > 0 && !c3.is_empty() {
                 blocks.push(Block { ty: i, ncols: col_count(ra, n3), alpha: red.clone(), nmax: n3, cfgs: c3.clone(), skip: None, sub: "values" });
@@ -980,15 +990,21 @@ pub fn run(ctx: &Ctx) -> ! {
 
     // ---------------- histories
     if want("history") {
-        let htys = history_types();
-        let hdims: Vec<usize> = vec![D_VERSION, D_DICT, D_DICT_LIMIT, D_PAGE_SIZE, D_PAGE_ROWS, D_WBS, D_RG_ROWS, D_RG_BYTES, D_COMPRESSION, D_STATS, D_CDC, D_LAYOUT, D_BLOOM, D_OFFIDX];
+        // quick: 4 columns and 9 dimensions; thorough: 7 columns and 14 dimensions (a 7-column, 5-row-group
+        // case read with batch size 1 costs ~4 ms)
+        let htys: Vec<Ty> = if quick { history_types().into_iter().take(4).collect() } else { history_types() };
+        let hdims: Vec<usize> = if quick {
+            vec![D_VERSION, D_DICT, D_PAGE_SIZE, D_PAGE_ROWS, D_WBS, D_RG_ROWS, D_RG_BYTES, D_CDC, D_LAYOUT]
+        } else {
+            vec![D_VERSION, D_DICT, D_DICT_LIMIT, D_PAGE_SIZE, D_PAGE_ROWS, D_WBS, D_RG_ROWS, D_RG_BYTES, D_COMPRESSION, D_STATS, D_CDC, D_LAYOUT, D_BLOOM, D_OFFIDX]
+        };
         let mut hc = exactly(0, &hdims);
         hc.extend(exactly(1, &hdims));
         let hc2 = exactly(2, &hdims);
         // configurations used for the histories that contain an empty write()
         let hce: Vec<Cfg> = vec![Cfg::default(), Cfg::default().with(D_RG_ROWS, 1), Cfg::default().with(D_RG_ROWS, 2), Cfg::default().with(D_RG_BYTES, 1), Cfg::default().with(D_CDC, 1)];
         let nmax_h = 5usize;
-        let n2max = if quick { 2 } else { 4 };
+        let n2max = if quick { 2 } else { 3 };
         // (n, hist, config class) list; class 0: <=1 deviation, 1: exactly 2 deviations, 2: empty-write set
         let mut items: Vec<(usize, Vec<Op>, u8)> = vec![];
         for n in 0..=nmax_h {
@@ -1229,8 +1245,10 @@ pub fn run(ctx: &Ctx) -> ! {
                     }
                 };
                 let mut obs = Obs::default();
-                if let Err((fp, msg)) = read_and_check(&case, buf, &md, &mut obs) {
-                    st.violate((4 << 40) + idx * 100000 + n, fp, msg, || case.to_json());
+                match catch(|| read_and_check(&case, buf, &md, &mut obs)) {
+                    Ok(Ok(())) => {}
+                    Ok(Err((fp, msg))) => st.violate((4 << 40) + idx * 100000 + n, fp, msg, || case.to_json()),
+                    Err(p) => st.violate((4 << 40) + idx * 100000 + n, format!("c05:{}", p.fingerprint().lines().next().unwrap_or("")), format!("panic {}:{} {}", p.file, p.line, p.msg), || case.to_json()),
                 }
                 st.outcome(&format!("parallel-threads|rg={}", obs.row_groups.len()));
                 if let Some(run) = run {
